@@ -8,7 +8,8 @@ All rules are phrased on roles and values, not on spelling:
 * guards are the dominating branch edges of the CFG (early return / continue / nested if / conditional expression are the
   same thing), flags and "value or None" temporaries are narrowed to the definition compatible with the test (`_narrow`);
 * the paths of seek() are walked once per whence constant of the io protocol (`_exec_seek`: the dispatch on `whence` is
-  specialised to SEEK_SET / SEEK_CUR / SEEK_END, the offset stays a symbol, offset arithmetic is kept as polynomials); the
+  specialised to SEEK_SET / SEEK_CUR / SEEK_END, the offset stays a symbol, offset arithmetic is kept as polynomials, every
+  store to a local on the path is followed - also `offset, whence = E, SEEK_SET` - or makes the local unknown); the
   constructor / read_nonce / one iteration of the scan loop are read as straight-line cursor movements of a symbolic
   cursor typestate (`_simulate`: position polynomials and byte spans `raw[<poly> : +k]` with k a constant of the code,
   instead of "the first read"/"the second read"; anything conditional gives `undecided`);
@@ -84,6 +85,18 @@ fixpoint rounds of the analysis over names/collections, not over inputs.
   that become constant select the branch; position-against-header tests say nothing about the end of the file and are followed
   on both edges; any other test on a read result / the position makes the path `opaque` -> undecided instead of violated).
   No loop that moves the file is entered, no read length is enumerated.  Lemmas: L1, L10.
+* R8 (anchors of relative seeks: under whence == SEEK_CUR the target the underlying file is moved to must be computed from its
+  current position, under whence == SEEK_END from where it ends - the end read() reads up to): 5 (the same case analysis of seek()
+  over the whence vocabulary as R1, `_exec_seek`; stores to locals on the path are followed, also the paired rebinding
+  `offset, whence = E, SEEK_SET`), 3 (def-use value flow `_sources`: the set of sources the offset argument of the one raw seek on
+  the path is computed from - the offset parameter, constants, `tell()` of the underlying file, and, through `@property` /
+  one-expression accessors and the attributes' only writer, the constructor: its arguments and its complete fixed-size reads, i.e.
+  file content; operands of operators and calls are united; no arithmetic is evaluated), 1 (who-may-write: an attribute that any
+  method but the constructor stores, that is stored conditionally, or that is stored from outside the class is `unknown`; calls that
+  are handed the view / the file, raw operations other than tell(), calls of other methods of the view are `unknown`).  Served with
+  the same whence by the underlying file: discharged (the offset is R1's).  Served by an absolute seek / the other relative whence
+  whose target has no `unknown` source and does not contain the anchor: violated by L11.  Anything else (two seeks "to the end, then
+  back", `tell() + offset`, an end measured by the constructor): undecided.  Lemma: L11.
 * R5: the scanner obligations of rules/c15.py (`scanner_obligations`), imported unchanged - see that module: structural
   shape, interval abstract interpretation `absint.Interp`, polynomials, CFG (devices 1-4).
 
@@ -121,6 +134,15 @@ Lemmas / library model relied on (also listed in `rep.trusted_base`):
       has had (or beyond it) do not raise; reads of the underlying file do not raise (I/O faults are outside the quantifier of
       the property).  For integers 0 <= j <= k: `-k + j == 0` iff j == k, so a backward seek by k followed by `read(k)` is
       back at the start only for a complete read; `-k + j + (k - j) == 0` for every j.
+  L11 the cursor position and the end of the underlying file are not functions of what else seek() can see: for any values of the
+      offset argument, the constructor's arguments and the bytes at fixed places of the file (the header words - a complete read of k
+      bytes is file *content*), files of different lengths and cursors at different positions exist - the quantifier of the property
+      ranges over plaintexts of any length, and the size word of the header is not validated (a stage located via the end-of-stub
+      marker only, an explicit nonce_offset, a truncated download, trailing bytes).  read() delivers decoded bytes until the
+      underlying file returns nothing (R2), so the view ends at <end of file> - (nonce_offset + 8): a SEEK_END target computed
+      without asking the underlying file where it ends (its own SEEK_END), or a SEEK_CUR target computed without its position
+      (tell() / its own SEEK_CUR), differs from the required <anchor> + offset for some file.  Functions only know what they are
+      handed (a call that is not handed the view / the file adds no source); module-level names carry no information about the file.
 """
 
 from __future__ import annotations
@@ -570,7 +592,12 @@ def run(ctx):
         "on every path whatever their reads return (path-wise symbolic cursor: the position as a polynomial over the entry position and one "
         "symbol len(<read>) in [0, nominal size] per read; absolute restore to a remembered tell() or relative moves that cancel with the "
         "actual length; a backward seek compensated only by a read of the same nominal size is a violation - the read is short at / beyond "
-        "the end of the data)."
+        "the end of the data); a seek relative to the current position / to the end is measured from a quantity only the underlying file "
+        "knows - its cursor, resp. where it ends, which is where read() stops delivering decoded bytes: under whence == SEEK_CUR / SEEK_END "
+        "(same case analysis as for the header length) the target of the one raw seek is either served by the same whence of the underlying "
+        "file, or its def-use sources (offset argument, constants, tell(), and through properties / the constructor's stores its arguments and "
+        "the header words it read) are collected - a target built without the anchor, e.g. an end taken from the size word of the header, is a "
+        "violation; targets whose sources cannot be followed completely are undecided."
     )
     rep.not_decided = [
         "plaintext equality for all seek/read histories",
@@ -585,6 +612,9 @@ def run(ctx):
         "are meant to keep the position is not known - discharged when they do, undecided otherwise; loops that move the file inside a key fetcher: undecided",
         "seek() forms in which a test that matters does not become constant under whence == SEEK_SET/SEEK_CUR/SEEK_END, cursor "
         "movements under a condition in __init__/read_nonce/the scan iteration, accumulators other than bytes/list/stream/counter: undecided",
+        "relative seeks served by something else than the same whence of the underlying file whose target does involve the anchor (tell() + offset, "
+        "seek to the end first and then back, an end measured once by the constructor): the arithmetic / the several movements are not followed - undecided (R8, R1); "
+        "that read() really stops at the end of the underlying file is R2's, not re-established by R8",
         "state carried across calls other than a cached rolling key (remembered positions, read-ahead buffers), caches that are validated "
         "where they are used (position comparison, validity flag), cached values other than a constant / a whole word read at the cursor / "
         "a read_nonce() result: undecided; movements of the underlying file made from outside the class",
@@ -609,6 +639,10 @@ def run(ctx):
         "lemma L9: a whole word read at the cursor is the rolling key of the position right after that read, read_nonce() returns the key "
         "of the position it is called at, and neither is the key of any other position (arbitrary file contents): a key cached in an "
         "attribute is right only if the cursor has not moved since, or a constant has been stored since",
+        "lemma L11: the cursor position and the end of the underlying file are not functions of the offset argument, the constructor's arguments and "
+        "bytes read at fixed places of the file (complete fixed-size reads are content; the size word of the header is not validated: marker-only "
+        "detection, explicit nonce_offset, truncated / padded stages); read() delivers decoded bytes up to the end of the underlying file, so the view ends at "
+        "<end of file> - (nonce_offset + 8); functions only know what they are handed, module-level names carry no information about the file",
         "struct.calcsize on constant format strings of the code (constant folding)",
         "scanner obligations of rules/c15.py (imported as R5)",
     ]
@@ -618,6 +652,7 @@ def run(ctx):
     r4(ctx)
     r6(ctx)
     r7(ctx)
+    r8(ctx)
     # automatic detection relies on the marker scan: the scanner obligations of C15 are necessary conditions here
     from rules import c15
 
@@ -655,15 +690,203 @@ def _r1_tell(ctx):
               f"tell() = {p}: raw position - (nonce_offset + 8)", f"tell() = {p}; required raw position - (nonce_offset + 8)", r)
 
 
-def _exec_seek(ctx, f, off: str, wh: str, v: int):
+# ---- value sources (R8): where the number a seek of the underlying file is given comes from
+_SRC_OFFSET = "the offset argument"
+_SRC_POSITION = "the current position of the underlying file"
+_SRC_CONTENT = "bytes read from the underlying file at a fixed place (header words)"
+_SRC_CTOR = "arguments of the constructor"
+_SRC_UNKNOWN = "?"
+
+
+def _name_pairs(st) -> Optional[List[Tuple[str, ast.AST]]]:
+    """[(local, expression)] for `x = E`, `x: T = E` and the paired tuple assignment `a, b = E1, E2` (all right-hand sides
+    are evaluated before the first store); None for any other form of store."""
+    if isinstance(st, ast.AnnAssign):
+        if not (isinstance(st.target, ast.Name) and st.value is not None):
+            return None
+        tgt, val = st.target, st.value
+    elif isinstance(st, ast.Assign) and len(st.targets) == 1:
+        tgt, val = st.targets[0], st.value
+    else:
+        return None
+    if any(isinstance(x, ast.NamedExpr) for x in ast.walk(val)):
+        return None
+    if isinstance(tgt, ast.Name):
+        return [(tgt.id, val)]
+    if isinstance(tgt, (ast.Tuple, ast.List)) and isinstance(val, (ast.Tuple, ast.List)) and len(tgt.elts) == len(val.elts) \
+            and all(isinstance(x, ast.Name) for x in tgt.elts) and not any(isinstance(x, ast.Starred) for x in val.elts):
+        return [(t.id, e) for t, e in zip(tgt.elts, val.elts)]
+    return None
+
+
+def _accessor_body(ctx, f, c: ast.Call):
+    """(method, expression) when `self.m()` calls a one-expression accessor of the same class, else None."""
+    if c.args or c.keywords:
+        return None
+    g = _self_callee(ctx, f, c)
+    if g is None or len(params(g.node)) != 1:
+        return None
+    body = g.node.body
+    if len(body) == 1 and isinstance(body[0], ast.Return) and body[0].value is not None:
+        return g, body[0].value
+    return None
+
+
+def _ctor_attr_sources(ctx, attr: str, depth: int) -> frozenset:
+    """Sources of an instance attribute that only the constructor binds, unconditionally and once: its arguments, constants,
+    complete fixed-size reads of the underlying file (file *content*).  Anything else - an attribute that another method
+    writes (state), a conditional store, a read without a constant size (its length tells where the file ends), a seek
+    result, a call that is handed the file - is unknown."""
+    unknown = frozenset([_SRC_UNKNOWN])
+    if depth > 6:
+        return unknown
+    init = None
+    stores = []
+    for m in _instance_methods(ctx):
+        for st, a, v in _attr_stores(m):
+            if a != attr:
+                continue
+            if _mname(m) != "__init__":
+                return unknown
+            init = m
+            stores.append((st, v))
+    if init is None or len(stores) != 1 or stores[0][1] is None:
+        return unknown
+    # bound from outside as well (`xf.<attr> = ..` in a classmethod / function of the module): not the constructor's alone
+    n_mod = sum(1 for x in ast.walk(init.module.tree) if isinstance(x, ast.Attribute) and x.attr == attr and isinstance(x.ctx, (ast.Store, ast.Del)))
+    if n_mod != 1:
+        return unknown
+    fn = init.node
+    st, v = stores[0]
+    if not any(st is x for x in fn.body):
+        return unknown  # bound under a condition / in a loop: control dependence is not followed
+    ps = params(fn)
+    rawp = tuple(x.value.id for x in fn.body if isinstance(x, ast.Assign) and len(x.targets) == 1 and dotted(x.targets[0]) == RAW
+                 and isinstance(x.value, ast.Name) and x.value.id in ps and not assignments_to(fn, x.value.id))
+    envd: Dict[str, frozenset] = {}
+    for p_ in ps[1:]:
+        envd[p_] = unknown if p_ in rawp or assignments_to(fn, p_) else frozenset([_SRC_CTOR])
+    # the locals of the constructor: straight-line single definitions only
+    for x in fn.body:
+        pairs = _name_pairs(x) if isinstance(x, (ast.Assign, ast.AnnAssign)) else None
+        for nm, e in pairs or []:
+            if nm not in envd and len(assignments_to(fn, nm)) == 1:
+                envd[nm] = _sources(ctx, init, e, envd, depth + 1, (RAW,) + rawp, True)
+    return _sources(ctx, init, v, envd, depth + 1, (RAW,) + rawp, True)
+
+
+def _sources(ctx, f, e, envd: Dict[str, frozenset], depth: int = 0, rawnames=(RAW,), in_ctor: bool = False) -> frozenset:
+    """Def-use value flow: the set of sources (`_SRC_*`) the value of expression e, evaluated in method f with the locals
+    described by envd, is computed from.  An over-approximation of the data dependences as long as `_SRC_UNKNOWN` is not in
+    the result: the operands of every operator / call are united (a function only knows what it is handed: a call that is
+    handed the view or the underlying file is unknown), properties and one-expression accessors of the class are followed,
+    attributes are looked up at their only writer, the constructor (`_ctor_attr_sources`).  Names that are not locals
+    (builtins, imported functions, module constants) carry no information about the file."""
+    unknown = frozenset([_SRC_UNKNOWN])
+    if e is None:
+        return frozenset()
+    if depth > 6:
+        return unknown
+    fn = f.node
+    ps = params(fn)
+    sn = ps[0] if ps else None
+
+    def rec(x) -> frozenset:
+        return _sources(ctx, f, x, envd, depth, rawnames, in_ctor)  # `depth` counts hops into other definitions, not the nesting of e
+
+    def union(nodes) -> frozenset:
+        out = frozenset()
+        for x in nodes:
+            out |= rec(x)
+        return out
+
+    if isinstance(e, ast.Constant):
+        return frozenset()
+    if isinstance(e, ast.Name):
+        if e.id in envd:
+            return envd[e.id]
+        if e.id == sn or e.id in ps or assignments_to(fn, e.id):
+            return unknown  # the view itself / a parameter or local the walk has not bound
+        return frozenset()
+    if isinstance(e, ast.Attribute):
+        d = dotted(e)
+        if d is not None and d in rawnames:
+            return unknown  # the file object as a value
+        if isinstance(e.value, ast.Name) and e.value.id == sn and f.cls:
+            prop = ctx.rs.property_of(f"{f.module.name}.{f.cls}", e.attr)
+            if prop is not None:
+                body = prop.node.body
+                if len(body) == 1 and isinstance(body[0], ast.Return) and body[0].value is not None and len(params(prop.node)) == 1:
+                    return _sources(ctx, prop, body[0].value, {}, depth + 1)
+                return unknown
+            if _class_attr(ctx, f, e.attr) is not None and not any(a == e.attr for m in _instance_methods(ctx) for _s, a, _v in _attr_stores(m)):
+                return frozenset() if _const(ctx, f, e) is not None else unknown
+            return _ctor_attr_sources(ctx, e.attr, depth + 1)
+        if _const(ctx, f, e) is not None:
+            return frozenset()
+        return rec(e.value)
+    if isinstance(e, ast.Call):
+        args = list(e.args) + [k.value for k in e.keywords]
+        if any(isinstance(a, ast.Starred) for a in e.args) or any(k.arg is None for k in e.keywords):
+            return unknown
+        if isinstance(e.func, ast.Attribute):
+            recv = e.func.value
+            if _is_raw(fn, recv, rawnames):
+                if e.func.attr == "tell" and not args:
+                    return frozenset([_SRC_POSITION])
+                if in_ctor and e.func.attr == "read" and len(args) == 1 and _is_int(_const(ctx, f, args[0])) and _const(ctx, f, args[0]) >= 0:
+                    return frozenset([_SRC_CONTENT])  # L11: the bytes of a complete fixed-size read say nothing about the end
+                return unknown
+            if isinstance(recv, ast.Name) and recv.id == sn:
+                acc = _accessor_body(ctx, f, e)
+                if acc is not None and not in_ctor:
+                    return _sources(ctx, acc[0], acc[1], {}, depth + 1)
+                return unknown
+            return rec(recv) | union(args)
+        if isinstance(e.func, ast.Name):
+            if e.func.id in envd or e.func.id in ps or assignments_to(fn, e.func.id):
+                return unknown  # a callable held in a local
+            return union(args)
+        return unknown
+    if isinstance(e, (ast.BinOp, ast.UnaryOp, ast.BoolOp, ast.Compare, ast.IfExp, ast.Subscript, ast.Slice, ast.Tuple, ast.List, ast.Set,
+                      ast.JoinedStr, ast.FormattedValue)):
+        return union(x for x in ast.iter_child_nodes(e) if isinstance(x, ast.expr))
+    if isinstance(e, ast.Dict):
+        return union([k for k in e.keys if k is not None] + list(e.values)) | (unknown if any(k is None for k in e.keys) else frozenset())
+    return unknown  # lambda, comprehension, walrus, starred, await/yield: not followed
+
+
+def _exec_seek(ctx, f, off: str, wh: str, v: int, trace: Optional[dict] = None):
     """Path-wise value flow through seek(offset, whence) under the named assumption whence == v, v one of the whence
     constants of the io protocol (case analysis over a finite vocabulary; constant propagation through the dispatch): the
     structured statements are walked once, tests that become constant under the assumption select the branch, any other
     test that matters gives 'unknown', the offset is a symbol and offset arithmetic is kept in polynomial normal form; no
-    loop is entered.  Returns (status 'done'|'fall'|'unknown', [(call, offset poly, whence passed)])."""
+    loop is entered.  Every store to a local on the path is followed (plain / annotated / paired tuple assignment, `+=`);
+    a local stored in a form that is not followed, or inside a statement that is skipped, is unknown from there on.
+    Returns (status 'done'|'fall'|'unknown', [(call, offset poly, whence passed)]).
+
+    With `trace` (a dict) the walk also records where the values come from (def-use value flow, R8): `trace["sources"]`
+    maps id(<raw seek call>) to the set of sources (`_SRC_*`) its offset argument is computed from on this path, and
+    `trace["opaque"]` lists the operations on the path whose effect on the underlying cursor is not followed (raw calls
+    other than seek/tell, calls of other methods of the view)."""
     fn = f.node
     env: Dict[str, Optional[SymPoly]] = {wh: SymPoly.const(v)}
     seeks: List[Tuple[ast.Call, Optional[SymPoly], Optional[int]]] = []
+    # value sources of the locals (R8): the offset parameter is itself, whence is a constant under the case
+    envd: Dict[str, frozenset] = {off: frozenset([_SRC_OFFSET]), wh: frozenset()}
+    if trace is not None:
+        trace.setdefault("sources", {})
+        trace.setdefault("opaque", [])
+
+    def sources(e) -> frozenset:
+        return _sources(ctx, f, e, envd)
+
+    def forget(st):
+        """locals stored by a statement that is not followed are unknown from here on"""
+        for x in ast.walk(st):
+            if isinstance(x, ast.Name) and isinstance(x.ctx, (ast.Store, ast.Del)):
+                env[x.id] = None
+                envd[x.id] = frozenset([_SRC_UNKNOWN])
 
     def sp(x):
         if isinstance(x, ast.Name) and x.id in env:
@@ -728,6 +951,12 @@ def _exec_seek(ctx, f, off: str, wh: str, v: int):
             if isinstance(c.func, ast.Attribute) and c.func.attr == "seek" and _is_raw(fn, c.func.value):
                 a, w = _seek_args(c)
                 seeks.append((c, poly(a) if a is not None else None, 0 if w is None else cval(w)))
+                if trace is not None:
+                    trace["sources"][id(c)] = sources(a) if a is not None else frozenset([_SRC_UNKNOWN])
+            elif trace is not None and isinstance(c.func, ast.Attribute) and (
+                    (_is_raw(fn, c.func.value) and c.func.attr not in ("tell", "seekable", "readable", "fileno"))
+                    or (_self_callee(ctx, f, c) is not None and _accessor_body(ctx, f, c) is None)):
+                trace["opaque"].append(c)
 
     def touches(st) -> bool:
         for x in ast.walk(st):
@@ -757,6 +986,7 @@ def _exec_seek(ctx, f, off: str, wh: str, v: int):
                 t = tv(st.test)
                 if t is None:
                     if not touches(st):
+                        forget(st)
                         continue
                     return "unknown"
                 r = run(st.body if t else st.orelse)
@@ -776,29 +1006,39 @@ def _exec_seek(ctx, f, off: str, wh: str, v: int):
                 if chosen == "unknown":
                     if touches(st):
                         return "unknown"
+                    forget(st)
                     continue
                 if chosen is not None:
                     r = run(chosen.body)
                     if r != "fall":
                         return r
-            elif isinstance(st, ast.Assign) and len(st.targets) == 1 and isinstance(st.targets[0], ast.Name):
+            elif isinstance(st, (ast.Assign, ast.AnnAssign)) and _name_pairs(st) is not None:
+                # `x = E`, `x: T = E`, `a, b = E1, E2`: the right-hand sides are evaluated first, then bound
                 collect(st.value)
-                env[st.targets[0].id] = poly(st.value)
+                pairs = _name_pairs(st)
+                vals = [(nm, poly(e), sources(e)) for nm, e in pairs]
+                for nm, p, d in vals:
+                    env[nm], envd[nm] = p, d
             elif isinstance(st, ast.AugAssign) and isinstance(st.target, ast.Name) and isinstance(st.op, (ast.Add, ast.Sub)):
                 collect(st.value)
                 cur, d = poly(ast.Name(id=st.target.id, ctx=ast.Load())), poly(st.value)
+                ds = sources(ast.Name(id=st.target.id, ctx=ast.Load())) | sources(st.value)
                 env[st.target.id] = None if cur is None or d is None else (cur + d if isinstance(st.op, ast.Add) else cur - d)
+                envd[st.target.id] = ds
             elif isinstance(st, ast.Return):
                 collect(st.value)
                 return "done"
             elif isinstance(st, ast.Raise):
                 return "done"
-            elif isinstance(st, (ast.Expr, ast.Assign, ast.AnnAssign)):
+            elif isinstance(st, (ast.Expr, ast.Assign, ast.AnnAssign, ast.AugAssign)):
                 collect(getattr(st, "value", None))
+                forget(st)
             elif isinstance(st, ast.Pass):
                 continue
             elif touches(st):
                 return "unknown"
+            else:
+                forget(st)
         return "fall"
 
     return run(fn.body), seeks
@@ -2913,6 +3153,65 @@ def r7(ctx):
             ctx.ob("R7", "CURSOR", m, t, True, f"{_mname(m)}() seeks and reads the underlying file and leaves the cursor where it was: {detail}", node)
         else:
             ctx.undecided("R7", "CURSOR", m, t, f"{_mname(m)}() seeks and reads the underlying file; whether it is meant to keep the position is not known ({detail})", node)
+
+
+# ============================================================================================== R8: anchors of relative seeks
+_SRC_END = "the end of the underlying file"
+
+
+def r8(ctx):
+    """A seek relative to the current position / to the end is measured from a quantity that only the underlying file knows:
+    its cursor, resp. where it ends - which is where read() stops delivering decoded bytes.  The target the underlying file is
+    moved to under whence == SEEK_CUR / SEEK_END must be computed from that anchor (def-use value flow, L11)."""
+    seek = ctx.repo.func(f"{CLS}.seek")
+    ps = params(seek.node)
+    cases = (("SEEK_CUR", _SRC_POSITION, "seek(offset, SEEK_CUR) is anchored at the current position of the underlying file"),
+             ("SEEK_END", _SRC_END, "seek(offset, SEEK_END) is anchored at the end of the underlying file"))
+    if len(ps) < 3 or not _raw_calls(seek, "seek"):
+        for _n, _a, text in cases:
+            ctx.undecided("R8", "CURSOR", seek, text, "seek(offset, whence) does not forward to a seek of the underlying file that can be located")
+        return
+    off, wh = ps[1], ps[2]
+    implicit = {_WHENCE["SEEK_SET"]: None, _WHENCE["SEEK_CUR"]: _SRC_POSITION, _WHENCE["SEEK_END"]: _SRC_END}
+    for name, anchor, text in cases:  # the two relative members of the whence vocabulary of the io protocol
+        v = _WHENCE[name]
+        trace: dict = {}
+        status, seeks = _exec_seek(ctx, seek, off, wh, v, trace)
+        if status == "unknown" or len(seeks) != 1:
+            # several seeks (e.g. to the end first, then back): the typestate of R1 does not follow them; no seek at all is R1's finding
+            ctx.undecided("R8", "CURSOR", seek, text, f"cannot follow seek() for whence == {name}" + (f": {len(seeks)} seeks of the underlying file" if status != "unknown" else ""))
+            continue
+        c, _pa, pw = seeks[0]
+        if pw == v:
+            ctx.ob("R8", "CURSOR", seek, text, True,
+                   f"whence == {name} is served by `{src(c)}` with whence {name} of the underlying file: measured from {anchor}"
+                   + (", which is where read() stops delivering decoded bytes" if v == 2 else ""), c)
+            continue
+        if pw not in implicit:
+            ctx.undecided("R8", "CURSOR", seek, text, f"whence == {name} is served by `{src(c)}` whose whence is not a constant of the io protocol", c)
+            continue
+        if trace["opaque"]:
+            ctx.undecided("R8", "CURSOR", seek, text, f"whence == {name} is served by `{src(c)}` after `{src(trace['opaque'][0])}`, whose effect on the underlying file is not followed", c)
+            continue
+        srcs = set(trace["sources"].get(id(c), {_SRC_UNKNOWN}))
+        if implicit[pw] is not None:
+            srcs.add(implicit[pw])
+        if _SRC_UNKNOWN in srcs:
+            ctx.undecided("R8", "CURSOR", seek, text, f"whence == {name} is served by `{src(c)}`; where its target comes from cannot be followed completely "
+                          f"(it may well be derived from {anchor})", c)
+            continue
+        if anchor in srcs:
+            ctx.undecided("R8", "CURSOR", seek, text, f"whence == {name} is served by `{src(c)}`, whose target is computed from {anchor} among other things; the arithmetic is not verified here", c)
+            continue
+        how = {0: "an absolute seek", 1: "a seek relative to the current position", 2: "a seek relative to the end"}[pw]
+        why = ("read() delivers decoded bytes until the underlying file is exhausted, so the end of the view is <end of underlying file> - (nonce_offset + 8); none of "
+               "these sources determines it (the size word of the header is just file content: a truncated stage, trailing bytes or an explicit nonce_offset make it "
+               "differ from the data present), so seek(0, SEEK_END); tell() is not the decoded length and seek(-k, SEEK_END); read(k) is not the last k bytes"
+               if v == 2 else
+               "the position after the seek must be the position before it plus offset, and none of these sources determines the position before it")
+        ctx.ob("R8", "CURSOR", seek, text, False,
+               f"whence == {name} is served by {how} `{src(c)}` whose target is computed from " + (", ".join(sorted(srcs)) or "constants") + f" only - "
+               f"nothing on this path asks the underlying file for {anchor}.  " + why, c)
 
 
 # ============================================================================================== R4: detection
